@@ -58,6 +58,12 @@ func c17Known(in *l3Info, p string, mode int) []string {
 	if in.bareParen {
 		k = append(k, "bare-paren") // C17-bare-paren-in-group
 	}
+	if in.negExt == 0 && mode&l3Ext != 0 && strings.Contains(p, "!(") {
+		k = append(k, "negext") // a !( the scanner did not reach (after a malformed bracket)
+	}
+	if in.nocaseClass {
+		k = append(k, "nocase-class") // C17-nocase-class
+	}
 	if in.negExt > 0 {
 		// !(…) is handled by extNegatedMatcher only as a single outermost group with a plain
 		// literal prefix and suffix, and only its EntireString|ExtendedOperators reading is right.
@@ -78,6 +84,12 @@ func c17Known(in *l3Info, p string, mode int) []string {
 	}
 	if in.starSwallow {
 		k = append(k, "star-swallow") // C17-globstar-swallows-extop
+	}
+	if in.slashInGroup {
+		// Not a finding: in filename mode bash splits a pattern at its slashes before matching, so a
+		// pattern-list that contains a slash has no defined reading; the reference (and `supported`)
+		// leave it out.  (pattern.go's leading-dot divergence also shows through iterated lists here.)
+		k = append(k, "outside:slash-in-group")
 	}
 	return k
 }
@@ -549,7 +561,7 @@ func c17(c *Ctx) {
 	var probes []c17Probe
 	bashBudget := 400
 	if c.Thorough() {
-		bashBudget = 2500
+		bashBudget = 600
 	}
 	idx := 0
 	consider := func(p string, mode int, strs []string) {
@@ -627,6 +639,15 @@ func c17(c *Ctx) {
 			}, p)
 		} else {
 			p, hit = c17GenPattern(c.R, mode, 0)
+		}
+		// backtracking matchers (the reference, bash) are exponential on iterated pattern-lists:
+		// keep the subjects short there
+		if rs := []rune(hit); strings.Contains(p, "*(") || strings.Contains(p, "+(") {
+			if len(rs) > 9 {
+				hit = string(rs[:9])
+			}
+		} else if len(rs) > 24 {
+			hit = string(rs[:24])
 		}
 		c17Tie(c, p, mode, c.R.Chance(25))
 		c.Case(fmt.Sprintf("%d %s", mode, p), strings.ContainsAny(p, "*?[\\("), append(c17Classify(p), "random")...)
